@@ -102,12 +102,23 @@ Definition is_coro (d : regd) : bool := r_coro d || r_check d.
 Definition defers (d : regd) : bool :=
   is_coro d && (r_check d || match gate_of d with None => true | Some _ => false end).
 
+(* ---------- INVOCATION.Details as the callee path reads them: every option may be ABSENT ----------
+   caller / caller_authid (Some 0 = the empty string) / procedure: copied into CallDetails as they are, except
+   `proc = msg.procedure or registration.procedure`; receive_progress is tri-state (absent / false / true) and the
+   code tests its truthiness (`if msg.receive_progress:`); timeout is parsed and not looked at by the callee path. *)
+Definition idet := (option N * option N * option N)%type.   (* caller, caller_authid, procedure *)
+Definition cdet := (option N * option N * N)%type.          (* CallDetails: caller, caller_authid, procedure *)
+Definition eff_details (reg : N) (i : idet) : cdet :=
+  let '(c, a, p) := i in (c, a, match p with Some q => q | None => reg end).   (* registration.procedure ~ reg *)
+Definition rp_on (rp : option bool) : bool := match rp with Some true => true | _ => false end.
+
 (* ---------- histories ---------- *)
 Inductive op :=
 | ORegister (reg : N) (d : regd)            (* session.register(...) + REGISTERED(reg) from the router *)
 | OUnregister (reg : N)                     (* registration.unregister() + UNREGISTERED *)
-| OInvocation (req reg : N) (args : payload) (caller : N) (rp : bool) (b : behaviour)
-                                            (* INVOCATION received; rp = receive_progress; b = what the endpoint will do *)
+| OInvocation (req reg : N) (args : payload) (caller : idet) (rp : option bool) (b : behaviour)
+                                            (* INVOCATION received; caller = its Details, rp = receive_progress
+                                               (None = absent); b = what the endpoint will do *)
 | OInterrupt (req : N)                      (* INTERRUPT received *)
 | OResolve (k : N) (r : result)             (* user code resolves / fails the pending result of call k *)
 | OProgress (k : N) (p : payload)           (* user code calls the details.progress of call k (at any time) *)
@@ -117,8 +128,8 @@ Inductive op :=
 Inductive where_ := InOnMessage | InCallback.   (* raised out of onMessage / out of a future callback (Twisted:
                                                    "Unhandled error in Deferred"; asyncio: loop exception handler) *)
 Inductive out :=
-| OAccepted (k req reg : N) (args : payload) (caller : N) (rp wants : bool)   (* ghost: entered into _invocations *)
-| OCalled (k req reg : N) (args : payload) (det : option (N * bool))   (* endpoint body entered; det = CallDetails
+| OAccepted (k req reg : N) (args : payload) (caller : idet) (rp : option bool) (wants : bool)   (* ghost: entered into _invocations *)
+| OCalled (k req reg : N) (args : payload) (det : option (cdet * bool))   (* endpoint body entered; det = CallDetails
                                                                           (caller, progress is callable) if asked *)
 | OSent (m : wmsg)
 | ORaised (w : where_) (x : xcls)
@@ -132,7 +143,7 @@ Inductive cstate :=
 | CWaking (mc : bool)               (* Aio: inner future done, Task wake-up queued *)
 | CDone                             (* on_reply has a result (its callbacks ran or are queued) *)
 | CNever.                           (* Aio Task cancelled before its body ran: done, and user code never saw the call *)
-Record call := { c_req : N; c_reg : N; c_args : payload; c_det : option (N * bool); c_clos : bool; c_st : cstate;
+Record call := { c_req : N; c_reg : N; c_args : payload; c_det : option (cdet * bool); c_clos : bool; c_st : cstate;
                  c_gate : option exn }.     (* Some e: the endpoint body is not entered, the call raises e (see gate_of) *)
 Inductive qitem := QCb (k : N) (r : result) | QStep (k : N) | QWake (k : N) (r : result).
 Record st := { regs : list (N * regd);       (* self._registrations *)
@@ -335,8 +346,8 @@ Definition step (fl : flavour) (s : st) (o : op) : st * list out :=
     | None => (s, [ORaised InOnMessage XProtocolError])                        (* non-registered registration ID *)
     | Some d =>
       let k := nextk s in
-      let clos := r_details d && rp in                     (* `if endpoint.details_arg: if msg.receive_progress:` *)
-      let det := if r_details d then Some (caller, clos) else None in
+      let clos := r_details d && rp_on rp in                     (* `if endpoint.details_arg: if msg.receive_progress:` *)
+      let det := if r_details d then Some (eff_details reg caller, clos) else None in
       let mk cs := {| c_req := req; c_reg := reg; c_args := args; c_det := det; c_clos := clos; c_st := cs;
                       c_gate := gate_of d |} in
       let acc := OAccepted k req reg args caller rp (r_details d) in
